@@ -8,7 +8,12 @@ def run(ctx):
     q = ctx.tier == "quick"
     common.replay_layer(ctx, "MC_Balance.tla", "MC_Balance_quick.cfg" if q else "MC_Balance_thorough.cfg", "balance-replay", "balance",
                         workers=10, heap="3g" if q else "6g")
+    if not q:
+        common.replay_layer(ctx, "MC_Balance.tla", "MC_Balance_seg3.cfg", "balance-replay", "balanceseg3", workers=12, heap="6g", timeout=3000)
     common.replay_layer(ctx, "MC_Balance.tla", "MC_Balance_odd.cfg", "balance-replay", "balanceodd", workers=10, heap="3g")
+    # beyond the bound: random logs of 4..14 entries, the real rows validated against Balance.tla by TLC
+    common.trace_layer(ctx, "balance-trace", "Trace_Balance.tla", "Trace_Balance.cfg", "balance", "balance-trace-rejected",
+                       {"logs": 150 if q else 3000}, "cmd/hranoprovod-cli/internal/balance", selftests=[("row-dropped", drop_bal_row), ("amount-changed", change_amount)])
     if ctx.tier == "thorough":
         vlib.vacuity_check(ctx, "MC_Balance.tla", "MC_Balance_quick.cfg", expect_zero=())
     return vlib.finish(
@@ -17,9 +22,25 @@ def run(ctx):
              "cases, repeats), amounts distinct powers of two with one negative, two days; invariants EachPathOnce, SiblingsSorted, "
              "ParentIsOwnPlusChildren, GrandTotalIsTopLevelSum, ModesAgreeOnLeaves (prefix-free logs), NoBranchDropped; every terminal state "
              "is rendered to files and run through bal, bal -c, bal --collapse-last and the three -s variants; rows (amount, indent, label) "
-             "and the grand total are compared; non-trivial = >= 2 entries",
+             "and the grand total are compared; beyond the bound, random logs of 4..14 entries over 4 segments and depth 4 (half of them prefix-free) are run through `bal` after each day and in all six shapes and the rows validated by TLC against Trace_Balance.tla; non-trivial = >= 2 entries",
         exhaustive=True, extra_cov=dict(spec_variant="repaired"),
         trusted=["parseBalance (amount | indent | label rows)", "dyadic units"])
+
+
+def drop_bal_row(tr):
+    for e in tr:
+        if e.get("ev") == "Flush" and len(e["default"]) >= 2:
+            del e["default"][-1]
+            return tr
+    return None
+
+
+def change_amount(tr):
+    for e in tr:
+        if e.get("ev") == "Flush" and e["collapse"]:
+            e["collapse"][0]["val"] += 1
+            return tr
+    return None
 
 
 def replay(ctx, path):
